@@ -189,3 +189,27 @@ func init() {
 		}
 	}
 }
+
+func init() {
+	// C18: a fee paid in uatom, the ATOM oracle price gone: the masterchef end-blocker converts fees through the best
+	// uatom/uusdc pool, an oracle pool, whose swap needs the price. Before fix 9e8da3f the error reached ABCI.
+	scenarios["c18-fee-conversion-price-missing"] = func(sc *Scn) {
+		w := sc.w
+		u := w.Accts[1]
+		w.Seed(func(ctx sdk.Context) {
+			for _, p := range w.App.OracleKeeper.GetAllPrice(ctx) {
+				if p.Asset == "ATOM" {
+					w.App.OracleKeeper.RemovePrice(ctx, p.Asset, p.Source, p.Timestamp)
+				}
+			}
+		})
+		tx := &histTx{kind: "bank.send", f: J{"signer": u.Addr.String(), "fee": [][]string{{"uatom", "500000"}}},
+			req: TxReq{Signer: u, Fee: sdk.NewCoins(sdk.NewCoin("uatom", math.NewInt(500000))),
+				Msgs: []sdk.Msg{banktypes.NewMsgSend(u.Addr, w.Accts[2].Addr, sdk.NewCoins(sdk.NewCoin("uusdc", math.NewInt(5))))}}}
+		if !emitBlock(w, sc.out, sc.id, []*histTx{tx}, 5*time.Second, sc.stats) {
+			return
+		}
+		sc.Empty(5 * time.Second)
+		sc.Empty(5 * time.Second)
+	}
+}
